@@ -460,34 +460,46 @@ func runC18(c *Ctx) {
 	if js := p.Func("private/bufpkg/bufimage/bufimagemodify", "modifyJsType"); js != nil {
 		jinfo := js.Info()
 		okPair := false
+		// the walker's callback: a literal inside modifyJsType, or a function / method of the package it was moved to
+		var bodies []*ast.BlockStmt
 		ast.Inspect(js.Decl.Body, func(n ast.Node) bool {
-			lit, ok := n.(*ast.FuncLit)
-			if !ok {
-				return true
-			}
-			var store, mark ast.Node
-			ast.Inspect(lit.Body, func(m ast.Node) bool {
-				switch x := m.(type) {
-				case *ast.AssignStmt:
-					if se, ok := x.Lhs[0].(*ast.SelectorExpr); ok && se.Sel.Name == "Jstype" {
-						store = x
-					}
-				case *ast.CallExpr:
-					if sel, ok := x.Fun.(*ast.SelectorExpr); ok && sel.Sel.Name == "Mark" {
-						mark = x
-					}
-				}
-				return true
-			})
-			if store == nil || mark == nil {
-				return true
-			}
-			g := p.CFGOf(lit.Body, jinfo)
-			if g.Dominates(store, mark) && !g.ReachableAvoiding(nil, mark, []ast.Node{store}) {
-				okPair = true
+			if lit, ok := n.(*ast.FuncLit); ok {
+				bodies = append(bodies, lit.Body)
 			}
 			return true
 		})
+		for _, fr := range p.FuncsOf(js.Pkg) {
+			if fr.Decl.Body != nil && fr.Decl != js.Decl {
+				bodies = append(bodies, fr.Decl.Body)
+			}
+		}
+		for _, litBody := range bodies {
+			lit := struct{ Body *ast.BlockStmt }{litBody}
+			func() bool {
+				var store, mark ast.Node
+				ast.Inspect(lit.Body, func(m ast.Node) bool {
+					switch x := m.(type) {
+					case *ast.AssignStmt:
+						if se, ok := x.Lhs[0].(*ast.SelectorExpr); ok && se.Sel.Name == "Jstype" {
+							store = x
+						}
+					case *ast.CallExpr:
+						if sel, ok := x.Fun.(*ast.SelectorExpr); ok && sel.Sel.Name == "Mark" {
+							mark = x
+						}
+					}
+					return true
+				})
+				if store == nil || mark == nil {
+					return true
+				}
+				g := p.CFGOf(lit.Body, jinfo)
+				if g.Dominates(store, mark) && !g.ReachableAvoiding(nil, mark, []ast.Node{store}) {
+					okPair = true
+				}
+				return true
+			}()
+		}
 		c.Ob("SET-MARK-PAIR", "modifyJsType", js.Decl.Pos(), okPair, true, "the js_type store dominates the Mark and Mark is unreachable without it: %v", okPair)
 		// path suffix = field number of FieldOptions.Jstype, prefixed by 8 (FieldDescriptorProto.options)
 		if cl := pkgVarLiteral(pk, "jsTypeSubPath"); cl != nil {
